@@ -6,11 +6,16 @@
 From AB Require Import Spec.Browser.
 Open Scope Z_scope.
 
-Record c15_case := { k_api : bool; k_redir : bytes; k_status : Z; k_loc : bytes; k_default : bytes; k_suffix : bytes }.
+(* [k_optional]: the flow hands the value over where the library is free to ignore it (an earlier step of a
+   two-step login, the JSON body in API mode): the location is the default, or the guarded value *)
+Record c15_case := { k_api : bool; k_redir : bytes; k_status : Z; k_loc : bytes; k_default : bytes; k_suffix : bytes;
+                     k_optional : bool }.
 
-Definition c15_candidates (c : c15_case) : list bytes :=
-  let t := redirect_target (k_redir c) (k_default c) true ++ k_suffix c in
+Definition c15_cands_for (c : c15_case) (redir : bytes) : list bytes :=
+  let t := redirect_target redir (k_default c) true ++ k_suffix c in
   if k_api c then [t] else [t; hex_escape_non_ascii t; http_redirect_rewrite t].
+Definition c15_candidates (c : c15_case) : list bytes :=
+  c15_cands_for c (k_redir c) ++ (if k_optional c then c15_cands_for c [] else []).
 
 Definition c15_check (id : Z) (c : c15_case) : list (Z * Z) :=
   (if bmem (k_loc c) (c15_candidates c) then [] else [(id, 1)]) ++
